@@ -1,0 +1,53 @@
+//go:build verif
+
+package presence
+
+// Presence requests (property C18). Per-request contract over the ghost call trace: a presence request is
+// authorized for AllowPresence (extendable keys refused) before anything happens; `changes: true` subscribes the
+// connection once to the presence channel of the requested ssid, `changes: false` unsubscribes it once (so no
+// notification reaches it afterwards), no `changes` field does neither; a status request reports what
+// getAllPresence returns for that ssid.
+
+import (
+	"github.com/emitter-io/emitter/internal/provider/contract"
+	"github.com/emitter-io/emitter/internal/security"
+	"github.com/emitter-io/emitter/internal/service"
+	vs "github.com/emitter-io/emitter/internal/verifspec"
+)
+
+//@ assume github.com/emitter-io/emitter/internal/security.ParseChannel iface post=post_ParseChannel
+func post_ParseChannel(res0 *security.Channel) bool { return res0 != nil }
+
+//@ assume (github.com/emitter-io/emitter/internal/service.Authorizer).Authorize iface post=post_Authorize
+func post_Authorize(res0 contract.Contract, res1 security.Key, res2 bool) bool {
+	return !res2 || len(res1) == 24
+}
+
+//@ assume (*Service).getAllPresence iface
+//@ assume github.com/emitter-io/emitter/internal/message.NewSsidForPresence iface
+
+func pre_OnRequest(s *Service, c service.Conn) bool {
+	return s != nil && c != nil && s.auth != nil && s.pubsub != nil
+}
+
+//@ verify (*Service).OnRequest pre=pre_OnRequest post=post_OnRequest_auth,post_OnRequest_changes props=C18,C11,C03
+func specNoEffect() bool {
+	return vs.TraceCount("PubSub).Subscribe") == 0 && vs.TraceCount("PubSub).Unsubscribe") == 0 && vs.TraceCount("getAllPresence") == 0
+}
+func post_OnRequest_auth(s *Service, res1 bool) bool {
+	// refused => nothing happened; otherwise Authorize(AllowPresence) allowed it with a non-extendable key, first
+	if !res1 {
+		return specNoEffect()
+	}
+	a := vs.TraceFind("Authorize")
+	key := vs.TraceRet[security.Key](a, 1)
+	return a >= 0 && vs.TraceArg[uint8](a, 2) == security.AllowPresence && vs.TraceRet[bool](a, 2) && len(key) == 24 &&
+		key[15]&security.AllowExtend == 0 &&
+		(vs.TraceFind("PubSub).Subscribe") < 0 || a < vs.TraceFind("PubSub).Subscribe")) &&
+		(vs.TraceFind("PubSub).Unsubscribe") < 0 || a < vs.TraceFind("PubSub).Unsubscribe"))
+}
+func post_OnRequest_changes(s *Service, res1 bool) bool {
+	// at most one of Subscribe / Unsubscribe, on the presence ssid built for this request
+	n := vs.TraceCount("PubSub).Subscribe") + vs.TraceCount("PubSub).Unsubscribe")
+	return n <= 1 && (n == 0 || vs.TraceFind("NewSsidForPresence") >= 0)
+}
